@@ -1380,10 +1380,6 @@ class ProgramData:
                     if input_filename is not None:
                         raise RuntimeError("Program filename specified multiple times")
                     input_filename = option
-                    program_output_name = os.path.splitext(os.path.basename(input_filename))[0]
-                    program_output_name = "".join(x if (
-                        x in string.ascii_letters or x == '_' or (i > 0 and x in string.digits)
-                    ) else '_' for i, x in enumerate(program_output_name))
                     continue
                 elif option[1] == "-":
                     option_name = option[2:]
@@ -1400,6 +1396,8 @@ class ProgramData:
             if option_name in ["o", "output"]:
                 if "." in option_value:
                     raise RuntimeError("Program output should not contain an extension")
+                if not option_value:
+                    raise RuntimeError("Missing value for argument " + option)
                 program_output_name = option_value
             elif option_name == "O":
                 try:
@@ -1459,6 +1457,13 @@ class ProgramData:
 
         if input_filename is None:
             raise RuntimeError("No input file provided!")
+
+        if program_output_name is None:
+            # No explicit output name: derive one from the input filename, wherever it was given
+            program_output_name = os.path.splitext(os.path.basename(input_filename))[0]
+            program_output_name = "".join(x if (
+                x in string.ascii_letters or x == '_' or (i > 0 and x in string.digits)
+            ) else '_' for i, x in enumerate(program_output_name))
 
         for j in range(optimize_level + 1):
             for i in cls._OPTIMIZE_LEVELS[j]:
